@@ -1,5 +1,6 @@
 import HapVerif.Model.C04
 import HapVerif.Generated.Facts
+import HapVerif.Lemmas.C04Final
 /-!
 # C04 — path precedence in generated maps
 
@@ -7,6 +8,27 @@ Model: `HapVerif.C04.rebuild` (maps.go `rebuildMatchFiles` for filter-less exact
 entries) and `lookupFiles` (HAProxy `map_str/map_beg/map_dir`, first answering file wins).
 Spec: `best` — an exact rule equal to the path, else the longest declared path among the rules
 that match by their own type.
+
+Theorems (all rule lists of any length, all hosts, all admissible host iteration orders, all six
+path-type orders; proofs in `Lemmas/C04*.lean`, core Lean only):
+
+* T1 `dir_key`, `no_cross_host`, `no_cross_host_file` — a key `host#path` never matches the sample
+  of another host under `str`, `beg` or `dir`; on one host `dir` is `dirPrefix`.
+* T2 `lookup_of_wellordered` — `WellOrdered` layout holding exactly the entries ⇒ `checkReq = none`.
+* T3 `rebuild_wellordered` — the current code builds a `WellOrdered` permutation of the entries.
+* T4 `lookup_spec`, `lookup_perm`.
+
+Hypotheses `WF rules`, `WFReq host path` (decidable, `Lemmas/C04Layout.lean`): hosts non-empty
+without `/` and `#`; declared paths start with `/`, contain no `#` and no empty segment (`//`);
+the request host has no `/`, `#`, the request path starts with `/` and has no `#`.  Not needed
+and therefore not assumed: lower-case hosts, ASCII, absence of duplicate rules (a duplicate has the
+same declared length, so `best` leaves the choice open), `//` in the request path.
+
+Full-strength statement (FALSE for the code as it is, see `double_slash_*` below):
+  `∀ rules π mo h p, hosts/paths as above but paths may contain "//" →
+     checkReq rules (rebuild mo (entriesOf rules) π) h p = none`.
+HAProxy's `map_dir` strips every trailing `/` of a pattern, maps.go compares the declared strings,
+so a prefix path that ends in two or more `/` is neither ordered nor sorted as what it matches.
 -/
 namespace HapVerif.C04
 
@@ -41,6 +63,188 @@ theorem before_upper_fix_violates :
 theorem after_upper_fix_ok :
     checkReq upperRules (rebuild [.exact, .pfx, .beg] (entriesOf upperRules) ["h".toList])
       "h".toList "/a/x/foo".toList = none := by decide +kernel
+
+/-! ### Witnesses outside the hypothesis `WF`: a prefix path that ends in `//` (genuine defect of the
+code, replayed on the Go code: `bin/check C04 --replay` on the three lines below) -/
+
+def dblRules1 : List Rule := [r "h" "/a//" .pfx 0, r "h" "/a/xy" .beg 1]
+def dblRules2 : List Rule := [r "h" "/a//" .pfx 0, r "h" "/a/+x" .pfx 1]
+def dblRules3 : List Rule := [r "h" "/a///" .pfx 0, r "h" "/a/b" .pfx 1]
+
+/-- `C04 maps EPB h|/a//|P|0,h|/a/xy|B|1`: `/a//` (4 chars) is not a prefix of `/a/xy`, so no priority
+file is made, and `map_dir` answers `/a/xy` with the shorter rule -/
+theorem double_slash_cross_type :
+    WF dblRules1 = false ∧
+    checkReq dblRules1 (rebuild [.exact, .pfx, .beg] (entriesOf dblRules1) ["h".toList])
+      "h".toList "/a/xy".toList = some "shorter-path-wins" := by decide +kernel
+
+/-- `C04 maps EPB h|/a//|P|0,h|/a/+x|P|1`: inside one `dir` file `/a//` sorts before `/a/+x` -/
+theorem double_slash_same_file :
+    WF dblRules2 = false ∧
+    checkReq dblRules2 (rebuild [.exact, .pfx, .beg] (entriesOf dblRules2) ["h".toList])
+      "h".toList "/a/+x".toList = some "shorter-path-wins" := by decide +kernel
+
+/-- `C04 maps EPB h|/a///|P|0,h|/a/b|P|1`: the declared-longest `/a///` loses against `/a/b` -/
+theorem double_slash_declared_longest :
+    WF dblRules3 = false ∧
+    checkReq dblRules3 (rebuild [.exact, .pfx, .beg] (entriesOf dblRules3) ["h".toList])
+      "h".toList "/a/b".toList = some "shorter-path-wins" := by decide +kernel
+
+/-! ## T1 — no capture across hosts -/
+
+/-- HAProxy's `dir` match on `host#path` keys is host equality and the directory-prefix test -/
+theorem dir_key {h p H q : Str} (hne : h ≠ []) (hs : '/' ∉ h) (hh : '#' ∉ h)
+    (hH : '#' ∉ H) (hHs : '/' ∉ H) (hq : '#' ∉ q) :
+    wordMatch (h ++ '#' :: p) (H ++ '#' :: q) = (decide (h = H) && dirPrefix p q) :=
+  wordMatch_key hne hs hh hH hHs hq
+
+example : wordMatch "h#/a/".toList "h#/a/x".toList = true ∧ wordMatch "h#/a".toList "h#/ab".toList = false ∧
+    wordMatch "g#/a".toList "h#/a".toList = false := by decide +kernel
+
+theorem reqOK_of_WFReq {h q : Str} (rq : WFReq h q = true) :
+    '#' ∉ lower h ∧ '/' ∉ lower h ∧ '#' ∉ q := by
+  simp only [WFReq, Bool.and_eq_true, Bool.not_eq_true', List.contains_eq_mem,
+    decide_eq_false_iff_not] at rq
+  exact ⟨fun x => rq.1.1.2 (mem_lower_hash.1 x), fun x => rq.1.1.1 (mem_lower_slash.1 x), rq.2⟩
+
+/-- **T1**: an entry of another host matches the sample of a request under no method
+(`str` equality, `dir` word match, `beg` prefix of the lower-cased sample) -/
+theorem no_cross_host {rules : List Rule} (wf : WF rules = true) {h q : Str} (rq : WFReq h q = true)
+    {e : Entry} (he : e ∈ entriesOf rules) (hne : e.host ≠ lower h) :
+    e.key ≠ sampleOf h q ∧ wordMatch e.key (sampleOf h q) = false ∧
+      e.key.isPrefixOf (lower (sampleOf h q)) = false := by
+  obtain ⟨r1, r2, r3⟩ := reqOK_of_WFReq rq
+  have ok := entriesOf_ok wf e he
+  have key : ∀ t, entMatch t e (sampleOf h q) = false := by
+    intro t
+    unfold sampleOf
+    rw [entMatch_key ok r1 r2 (lower_idem h) r3]
+    simp [hne]
+  exact ⟨by simpa [entMatch] using key .exact, by simpa [entMatch] using key .pfx,
+    by simpa [entMatch] using key .beg⟩
+
+/-- a file that only holds entries of other hosts does not answer -/
+theorem no_cross_host_file {rules : List Rule} (wf : WF rules = true) {h q : Str}
+    (rq : WFReq h q = true) (t : MT) (E : List Entry)
+    (hE : ∀ e ∈ E, e ∈ entriesOf rules ∧ e.host ≠ lower h) :
+    lookupFile (mkFile t E) (sampleOf h q) = none := by
+  rw [lookupFile_none]
+  intro e he
+  obtain ⟨h1, h2, h3⟩ := no_cross_host wf rq (hE e he).1 (hE e he).2
+  cases t
+  · simpa [entMatch] using h1
+  · simpa [entMatch] using h2
+  · simpa [entMatch] using h3
+
+def twoHosts : List Rule :=
+  [r "a.local" "/app" .pfx 0, r "b.local" "/" .beg 1, r "b.local" "/app/x" .exact 2, r "a.local" "/App/Sub" .beg 3]
+
+example : WF twoHosts = true ∧ WFReq "A.local".toList "/app/x".toList = true ∧
+    (∃ e ∈ entriesOf twoHosts, e.host ≠ lower "A.local".toList) := by decide +kernel
+
+/-! ## T2 — a well-ordered layout answers as the property demands -/
+
+/-- **T2**.  `WellOrdered` (see `Lemmas/C04Layout.lean`): entries sit in files of their own type;
+only the first file may be an exact file; for same-host non-exact entries, `e1` properly extending
+`e2` (folded paths) implies `file e1 ≤ file e2` — strictly before when the types differ
+(`WellOrdered.strict`).  The same-type clause cannot be dropped: `[pfx{/a}]; [pfx{/a/b}]` answers
+`/a/b/c` with `/a`.  The descending order inside a `dir` file is not a hypothesis: it is produced
+by `mkFile` (`fileLt` is a strict order, `sortBy` sorts) and proved in `Lemmas/C04Sort.lean`.
+Ties (equal declared length) stay open exactly as in `best`. -/
+theorem lookup_of_wellordered {rules : List Rule} {l : Layout} {h q : Str}
+    (wf : WF rules = true) (rq : WFReq h q = true) (wo : WellOrdered l)
+    (cov : ∀ e, e ∈ l.flatMap (·.entries) ↔ e ∈ entriesOf rules) :
+    checkReq rules (emit l) h q = none :=
+  checkReq_of_wellordered wf rq wo cov
+
+/-! ## T3 — the current code builds a well-ordered layout -/
+
+/-- **T3**: for every admissible host iteration order and every permutation of the three path
+types, `rebuild` is the emission of a `WellOrdered` layout that is a permutation of the entries
+(every entry in exactly one file, once) -/
+theorem rebuild_wellordered (rules : List Rule) {π : List Str}
+    (hπ : HostOrderOK (entriesOf rules) π) {mo : List MT} (hmo : mo.Perm [.exact, .pfx, .beg]) :
+    rebuild mo (entriesOf rules) π = emit (layoutV current mo (entriesOf rules) π) ∧
+    WellOrdered (layoutV current mo (entriesOf rules) π) ∧
+    ((layoutV current mo (entriesOf rules) π).flatMap (·.entries)).Perm (entriesOf rules) :=
+  ⟨rebuildV_eq_emit _ _ _ _, layout_wellordered (entriesOf_esOK rules) hπ.1 hπ.2 hmo⟩
+
+/-- Go's map iteration: any permutation of the hosts is admissible -/
+theorem hostOrder_of_perm {rules : List Rule} {π : List Str}
+    (h : π.Perm (hostsOf (entriesOf rules))) : HostOrderOK (entriesOf rules) π :=
+  hostOrderOK_of_perm h
+
+example : HostOrderOK (entriesOf twoHosts) ["b.local".toList, "a.local".toList] :=
+  hostOrder_of_perm (by decide +kernel)
+
+/-- the invariant is not vacuous: priority files exist and are ordered on the 7-rule set that
+broke the code before the `_upper` repair -/
+example : (layoutV current [.exact, .pfx, .beg] (entriesOf upperRules) ["h".toList]).length = 5 ∧
+    WellOrdered (layoutV current [.exact, .pfx, .beg] (entriesOf upperRules) ["h".toList]) :=
+  ⟨by decide +kernel,
+   (rebuild_wellordered upperRules (hostOrder_of_perm (by decide +kernel)) (List.Perm.refl _)).2.1⟩
+
+/-- T2 applied to that layout (hypotheses are satisfiable, conclusion is about a real lookup) -/
+example : checkReq upperRules (emit (layoutV current [.exact, .pfx, .beg] (entriesOf upperRules) ["h".toList]))
+    "H".toList "/a/x/foo".toList = none :=
+  have t3 := rebuild_wellordered upperRules (π := ["h".toList]) (hostOrder_of_perm (by decide +kernel))
+    (List.Perm.refl [MT.exact, MT.pfx, MT.beg])
+  lookup_of_wellordered (by decide +kernel) (by decide +kernel) t3.2.1 (fun _ => t3.2.2.mem_iff)
+
+/-! ## T4 — the property -/
+
+/-- **T4**: every request is answered by an exact rule equal to the path if there is one, otherwise
+by a matching rule of maximal declared length; no answer iff no rule matches; never by a rule of
+another host -/
+theorem lookup_spec {rules : List Rule} (wf : WF rules = true) {π : List Str}
+    (hπ : HostOrderOK (entriesOf rules) π) {mo : List MT} (hmo : mo.Perm [.exact, .pfx, .beg])
+    {h q : Str} (rq : WFReq h q = true) :
+    checkReq rules (rebuild mo (entriesOf rules) π) h q = none := by
+  obtain ⟨e, wo, pm⟩ := rebuild_wellordered rules hπ hmo
+  rw [e]
+  exact lookup_of_wellordered wf rq wo (fun x => pm.mem_iff)
+
+/-- the same, unfolded: what the frontend returns lies in `best` -/
+theorem lookup_in_best {rules : List Rule} (wf : WF rules = true) {π : List Str}
+    (hπ : HostOrderOK (entriesOf rules) π) {mo : List MT} (hmo : mo.Perm [.exact, .pfx, .beg])
+    {h q : Str} (rq : WFReq h q = true) :
+    match lookupFiles (rebuild mo (entriesOf rules) π) (sampleOf h q) with
+    | none => best rules h q = []
+    | some t => t ∈ best rules h q :=
+  checkReq_none_iff.1 (lookup_spec wf hπ hmo rq)
+
+/-- **T4** iteration-order independence: two iteration orders (and two path-type orders) agree on
+whether a request is answered, both answers lie in the same set `best`, and they are equal
+whenever the property determines the answer (no tie) -/
+theorem lookup_perm {rules : List Rule} (wf : WF rules = true) {π π' : List Str}
+    (hπ : HostOrderOK (entriesOf rules) π) (hπ' : HostOrderOK (entriesOf rules) π')
+    {mo mo' : List MT} (hmo : mo.Perm [.exact, .pfx, .beg]) (hmo' : mo'.Perm [.exact, .pfx, .beg])
+    {h q : Str} (rq : WFReq h q = true) :
+    ((lookupFiles (rebuild mo (entriesOf rules) π) (sampleOf h q)).isSome =
+      (lookupFiles (rebuild mo' (entriesOf rules) π') (sampleOf h q)).isSome) ∧
+    ((∀ t ∈ best rules h q, ∀ t' ∈ best rules h q, t = t') →
+      lookupFiles (rebuild mo (entriesOf rules) π) (sampleOf h q) =
+        lookupFiles (rebuild mo' (entriesOf rules) π') (sampleOf h q)) := by
+  have a := lookup_in_best wf hπ hmo rq
+  have b := lookup_in_best wf hπ' hmo' rq
+  cases h1 : lookupFiles (rebuild mo (entriesOf rules) π) (sampleOf h q) <;>
+    cases h2 : lookupFiles (rebuild mo' (entriesOf rules) π') (sampleOf h q) <;>
+    rw [h1] at a <;> rw [h2] at b <;> simp only at a b
+  · simp
+  · rw [a] at b; simp at b
+  · rw [b] at a; simp at a
+  · exact ⟨rfl, fun hu => by rw [hu _ a _ b]⟩
+
+/-- `lookup_spec` applies to a two-host rule set with mixed case, in both iteration orders, and the
+answer is the one expected -/
+example : WF twoHosts = true ∧ WFReq "A.local".toList "/app/sub/x".toList = true ∧
+    best twoHosts "A.local".toList "/app/sub/x".toList = [3] ∧
+    lookupFiles (rebuild [.pfx, .beg, .exact] (entriesOf twoHosts) ["b.local".toList, "a.local".toList])
+      (sampleOf "A.local".toList "/app/sub/x".toList) = some 3 := by decide +kernel
+
+example : checkReq twoHosts (rebuild [.beg, .exact, .pfx] (entriesOf twoHosts)
+    ["b.local".toList, "a.local".toList]) "A.local".toList "/app/sub/x".toList = none :=
+  lookup_spec (by decide +kernel) (hostOrder_of_perm (by decide +kernel)) (by decide) (by decide +kernel)
 
 /-- regenerated from the Go source: the key separator is `#` (not a path or host character) and the
 default host name cannot collide with a DNS name -/
